@@ -253,6 +253,17 @@ func TestForkAdoption(t *testing.T) {
 			}
 			t.Fatalf("valid, certified, longer fork refused: %v (%s)\n%s\nprefix history:\n%s", err, desc, branches, h.Summary())
 		}
+		// the consensus engine and the downloader never see the error of processBlocks (it runs in the resolver's own
+		// goroutine): they poll HasLoadedFork() and call ApplyFork(). The verdict has to be visible there.
+		if loaded := resolver.HasLoadedFork(); loaded != accepted {
+			if !loaded {
+				t.Fatalf("the fork was accepted, but the resolver holds no fork for the engine (%s)", desc)
+			}
+			before := own.Head()
+			_, aerr := resolver.ApplyFork()
+			t.Fatalf("the fork was refused (%v), but the resolver reports a loaded fork; the engine's next turn applied it (err=%v): head %d %x -> %d %x, stored certificate of the new head empty=%v (%s)",
+				err, aerr, before.Height(), before.Hash(), own.Head().Height(), own.Head().Hash(), own.Chain.GetCertificate(own.Head().Hash()).Empty(), desc)
+		}
 		if !accepted {
 			evid.Count("verdict.refused")
 			if mustRefuse && (hasIdUpd || hasTx) {
